@@ -1,439 +1,192 @@
-(* Proofs about the ipdict model: the merge keeps the covered address set, leaves pairwise separated
-   survivors, counts its tombstones exactly; hence for every valid sorter the table search is exact
-   whenever no loaded range collides with the zero-address tombstone encoding. *)
+(* Proofs about the ipdict model (repaired mergeItems/Sort): the merge stack is pairwise separated, covers
+   exactly the addresses of the loaded ranges; hence for every valid sorter the table search is exact. *)
 From Coq Require Import List ZArith Bool Lia Sorted Permutation ZifyBool.
 From Bfe Require Import lib.Val lib.ValProofs model.IpDict run.RunC19.
 Import ListNotations.
 Open Scope Z_scope.
 
-Definition good (r : rng) : Prop := 0 < fst r /\ fst r <= snd r /\ snd r <> Z4.
-Definition ok (r : rng) : Prop := r = tomb \/ good r.
-Definition liveb (r : rng) : bool := negb (snd r =? 0).
-Definition lv (l : list rng) : list rng := filter liveb l.
+Definition wfr (r : rng) : Prop := fst r <= snd r.
 Definition desc (a b : rng) : Prop := fst b <= fst a.
-Definition sepR (a b : rng) : Prop := snd b < fst a.
 Definition inr (ip : Z) (r : rng) : Prop := fst r <= ip <= snd r.
-Definition Cov (l : list rng) (ip : Z) : Prop := exists r, In r l /\ snd r <> 0 /\ inr ip r.
-Fixpoint nlive (l : list rng) : Z :=
-  match l with [] => 0 | r :: t => (if snd r =? 0 then 0 else 1) + nlive t end.
+Definition Cov (l : list rng) (ip : Z) : Prop := exists r, In r l /\ inr ip r.
+(* stack order (top first): everything above ends before the start of everything below *)
+Definition above (a b : rng) : Prop := snd a < fst b.
+(* array order: everything later ends before the start of everything earlier *)
+Definition sepR (a b : rng) : Prop := snd b < fst a.
 
 (* sort.Sort as a parameter: any function returning a permutation that is sorted w.r.t. Less *)
 Definition valid_sorter (f : list rng -> list rng) : Prop :=
   forall l, Permutation (f l) l /\ StronglySorted desc (f l).
 
-Lemma Z4_pos : 0 < Z4. Proof. reflexivity. Qed.
-Lemma good_live r : good r -> snd r <> 0.
-Proof. unfold good. lia. Qed.
-Lemma is_zero_good r : good r -> is_zero (snd r) = false.
-Proof. unfold good, is_zero. intros H. destruct (snd r =? 0) eqn:E1; destruct (snd r =? Z4) eqn:E2; try reflexivity; lia. Qed.
-Lemma good_ok r : good r -> ok r. Proof. right. assumption. Qed.
-Lemma tomb_ok : ok tomb. Proof. left. reflexivity. Qed.
-Lemma ok_live_good r : ok r -> snd r <> 0 -> good r.
-Proof. intros [-> | H] Hl; [simpl in Hl; lia | exact H]. Qed.
-Lemma max_if a b : (if a <=? b then b else a) = Z.max a b.
-Proof. destruct (a <=? b) eqn:E; lia. Qed.
-
-(* ---- nlive / lv / Cov algebra ---- *)
-Lemma nlive_app a b : nlive (a ++ b) = nlive a + nlive b.
-Proof. induction a as [|x a IH]; simpl; [reflexivity | rewrite IH; lia]. Qed.
-Lemma lv_app a b : lv (a ++ b) = lv a ++ lv b.
-Proof. apply filter_app. Qed.
-Definition tombs (p : list rng) : list rng := map (fun _ => tomb) p.
-Lemma lv_tombs p : lv (tombs p) = [].
-Proof. induction p; simpl; auto. Qed.
-Lemma nlive_tombs p : nlive (tombs p) = 0.
-Proof. induction p; simpl; auto. Qed.
-Lemma nlive_length_lv l : nlive l = Z.of_nat (length (lv l)).
-Proof.
-  induction l as [|r l IH]; [reflexivity|]. cbn [nlive lv filter]. unfold liveb at 1.
-  destruct (snd r =? 0); cbn [negb]; fold (lv l); [lia | cbn [length]; lia].
-Qed.
-Lemma lv_cons_live x l : snd x <> 0 -> lv (x :: l) = x :: lv l.
-Proof. intros H. cbn [lv filter]. unfold liveb at 1. destruct (snd x =? 0) eqn:E; [lia | reflexivity]. Qed.
-Lemma lv_cons_dead x l : snd x = 0 -> lv (x :: l) = lv l.
-Proof. intros H. cbn [lv filter]. unfold liveb at 1. rewrite H. reflexivity. Qed.
-Lemma In_lv r l : In r (lv l) <-> In r l /\ snd r <> 0.
-Proof. unfold lv. rewrite filter_In. unfold liveb. destruct (snd r =? 0) eqn:E; simpl; intuition (try lia; try congruence). Qed.
-
 Lemma Cov_nil ip : Cov [] ip <-> False.
 Proof. split; [intros (r & [] & _) | tauto]. Qed.
-Lemma Cov_cons r l ip : Cov (r :: l) ip <-> (snd r <> 0 /\ inr ip r) \/ Cov l ip.
+Lemma Cov_cons r l ip : Cov (r :: l) ip <-> inr ip r \/ Cov l ip.
 Proof.
   split.
-  - intros (x & [-> | Hin] & Hl & Hi); [left; tauto | right; exists x; tauto].
-  - intros [[Hl Hi] | (x & Hin & Hl & Hi)]; [exists r | exists x]; simpl; tauto.
-Qed.
-Lemma Cov_app a b ip : Cov (a ++ b) ip <-> Cov a ip \/ Cov b ip.
-Proof.
-  induction a as [|x a IH]; simpl.
-  - rewrite Cov_nil. tauto.
-  - rewrite !Cov_cons, IH. tauto.
-Qed.
-Lemma Cov_tombs p ip : Cov (tombs p) ip <-> False.
-Proof.
-  split; [|tauto]. intros (r & Hin & Hl & _). unfold tombs in Hin. apply in_map_iff in Hin.
-  destruct Hin as (_ & <- & _). simpl in Hl. lia.
+  - intros (x & [-> | Hin] & Hi); [left; exact Hi | right; exists x; tauto].
+  - intros [Hi | (x & Hin & Hi)]; [exists r | exists x]; simpl; tauto.
 Qed.
 Lemma Cov_perm a b ip : Permutation a b -> Cov a ip -> Cov b ip.
 Proof. intros HP (r & Hin & H). exists r. split; [eapply Permutation_in; eauto | exact H]. Qed.
+Lemma Cov_rev l ip : Cov (rev l) ip <-> Cov l ip.
+Proof. split; intros (r & Hin & H); exists r; split; auto; [apply in_rev; exact Hin | apply in_rev in Hin; exact Hin]. Qed.
 
-Lemma kill_between_spec p : Forall ok p -> kill_between p = (tombs p, nlive p).
+(* ---- one step of the merge loop ---- *)
+Lemma push_spec : forall st cur,
+  wfr cur -> Forall wfr st -> StronglySorted above st -> (forall x, In x st -> fst cur <= fst x) ->
+  StronglySorted above (push cur st) /\ Forall wfr (push cur st) /\
+  (forall ip, Cov (push cur st) ip <-> inr ip cur \/ Cov st ip) /\
+  (forall x, In x (push cur st) -> fst cur <= fst x) /\
+  (length (push cur st) <= S (length st))%nat.
 Proof.
-  induction 1 as [|k r Hk _ IH]; [reflexivity|]. cbn [kill_between tombs map nlive]. fold (tombs r). rewrite IH.
-  destruct Hk as [-> | Hg].
-  - reflexivity.
-  - rewrite (is_zero_good _ Hg). pose proof (good_live _ Hg) as Hl.
-    destruct (snd k =? 0) eqn:E; [lia|]. f_equal. lia.
+  induction st as [|top r IH]; intros cur Hc Hw Hs Hle.
+  - cbn [push]. split; [repeat constructor|]. split; [repeat constructor; exact Hc|].
+    split; [intros ip; rewrite Cov_cons; tauto|]. split; [intros x [<- | []]; lia | simpl; lia].
+  - cbn [push]. inversion Hw as [|? ? Ht Hw']; subst. inversion Hs as [|? ? Hs' Hab]; subst.
+    pose proof (Hle top (or_introl eq_refl)) as Hct.
+    destruct (fst top <=? snd cur) eqn:E.
+    + set (c2 := (fst cur, if snd cur <? snd top then snd top else snd cur)).
+      assert (Hc2 : wfr c2) by (unfold wfr, c2 in *; cbn [fst snd]; destruct (snd cur <? snd top); lia).
+      destruct (IH c2 Hc2 Hw' Hs') as (G1 & G2 & G3 & G4 & G5).
+      { intros x Hx. unfold c2. cbn [fst]. apply Hle. right. exact Hx. }
+      split; [exact G1|]. split; [exact G2|].
+      split.
+      { intros ip. rewrite G3, Cov_cons.
+        assert (Hu : inr ip c2 <-> inr ip cur \/ inr ip top).
+        { unfold inr, c2, wfr in *. cbn [fst snd]. destruct (snd cur <? snd top) eqn:E2; lia. }
+        rewrite Hu. tauto. }
+      split; [intros x Hx; apply (G4 x Hx)|]. simpl. lia.
+    + split.
+      { constructor; [exact Hs|]. constructor; [unfold above; lia|].
+        rewrite Forall_forall in *. intros b Hb. specialize (Hab b Hb). unfold above, wfr in *. lia. }
+      split; [constructor; [exact Hc | exact Hw]|].
+      split; [intros ip; rewrite Cov_cons; tauto|].
+      split; [intros x [<- | Hx]; [lia | apply Hle; exact Hx] | simpl; lia].
 Qed.
-Lemma Forall_ok_tombs p : Forall ok (tombs p).
-Proof. induction p; simpl; constructor; auto using tomb_ok. Qed.
 
-Lemma SS_app_r {A} (R : A -> A -> Prop) a b : StronglySorted R (a ++ b) -> StronglySorted R b.
-Proof. induction a as [|x a IH]; simpl; [auto|]. intros H. inversion H; auto. Qed.
-Lemma SS_app_Forall {A} (R : A -> A -> Prop) a b x :
-  StronglySorted R (a ++ b) -> In x a -> Forall (R x) b.
+(* ---- the whole merge loop ---- *)
+Lemma merge_spec : forall l st,
+  StronglySorted desc l -> Forall wfr l -> Forall wfr st -> StronglySorted above st ->
+  (forall x y, In x st -> In y l -> fst y <= fst x) ->
+  let r := fold_left (fun st x => push x st) l st in
+  StronglySorted above r /\ Forall wfr r /\ (forall ip, Cov r ip <-> Cov l ip \/ Cov st ip) /\
+  (length r <= length l + length st)%nat.
 Proof.
-  induction a as [|y a IH]; simpl; [tauto|]. intros H [-> | Hin].
-  - inversion H as [|? ? _ HF]; subst. apply Forall_app in HF. tauto.
-  - inversion H; subst. auto.
+  induction l as [|x l IH]; intros st Hs Hw Hwst Hsep Hle; cbn [fold_left].
+  - split; [exact Hsep|]. split; [exact Hwst|]. split; [intros ip; rewrite Cov_nil; tauto | simpl; lia].
+  - inversion Hs as [|? ? Hs' Hd]; subst. inversion Hw as [|? ? Hx Hw']; subst.
+    destruct (push_spec st x Hx Hwst Hsep) as (P1 & P2 & P3 & P4 & P5).
+    { intros z Hz. apply (Hle z x Hz). left. reflexivity. }
+    destruct (IH (push x st) Hs' Hw' P2 P1) as (G1 & G2 & G3 & G4).
+    { intros z y Hz Hy. rewrite Forall_forall in Hd. specialize (Hd y Hy). specialize (P4 z Hz). unfold desc in Hd. lia. }
+    split; [exact G1|]. split; [exact G2|].
+    split; [intros ip; rewrite G3, P3, Cov_cons; tauto | simpl; lia].
 Qed.
-Lemma SS_filter {A} (R : A -> A -> Prop) f l : StronglySorted R l -> StronglySorted R (filter f l).
+
+Lemma merge_stack_spec l : StronglySorted desc l -> Forall wfr l ->
+  StronglySorted above (merge_stack l) /\ Forall wfr (merge_stack l) /\
+  (forall ip, Cov (merge_stack l) ip <-> Cov l ip) /\ (length (merge_stack l) <= length l)%nat.
+Proof.
+  intros Hs Hw. destruct (merge_spec l [] Hs Hw (Forall_nil _) (SSorted_nil _)) as (G1 & G2 & G3 & G4).
+  { intros x y []. }
+  unfold merge_stack. split; [exact G1|]. split; [exact G2|].
+  split; [intros ip; rewrite G3, Cov_nil; tauto | simpl in G4; lia].
+Qed.
+
+(* ---- the reslice keeps exactly the stack (bottom first) ---- *)
+Lemma build_is_stack sorter items : Permutation (sorter items) items ->
+  (length (merge_stack (sorter items)) <= length (sorter items))%nat ->
+  build sorter items = rev (merge_stack (sorter items)).
+Proof.
+  intros HP Hl. unfold build, merge_items. set (st := merge_stack (sorter items)) in *.
+  rewrite <- (Permutation_length HP).
+  replace (Z.to_nat (Z.of_nat (length (sorter items)) - (Z.of_nat (length (sorter items)) - Z.of_nat (length st))))
+    with (length (rev st)) by (rewrite rev_length; lia).
+  rewrite firstn_app, firstn_all, Nat.sub_diag. cbn [firstn]. apply app_nil_r.
+Qed.
+
+Lemma SS_rev {A} (R : A -> A -> Prop) l :
+  StronglySorted R l -> StronglySorted (fun a b => R b a) (rev l).
 Proof.
   induction 1 as [|a l HS IH HF]; simpl; [constructor|].
-  destruct (f a); [|exact IH]. constructor; [exact IH|].
-  rewrite Forall_forall in *. intros x Hx. apply filter_In in Hx. apply HF. tauto.
+  assert (G : forall m, StronglySorted (fun a b => R b a) m -> Forall (fun b => R a b) m ->
+                        StronglySorted (fun a b => R b a) (m ++ [a])).
+  { induction 1 as [|b m HSm IHm HFm]; intros HA; simpl; [repeat constructor|].
+    inversion HA; subst. constructor; [apply IHm; assumption|].
+    apply Forall_app. split; [exact HFm | constructor; [assumption | constructor]]. }
+  apply G; [exact IH|]. rewrite Forall_forall in *. intros b Hb. apply in_rev in Hb. apply HF. exact Hb.
 Qed.
 
-(* ---- the inner loop (fixed i) ---- *)
-Lemma inner_spec : forall rest cur passed cnt,
-  good cur -> Forall ok passed -> Forall ok rest ->
-  StronglySorted desc (lv (passed ++ rest)) ->
-  (forall p, In p passed -> snd p <> 0 -> snd p < fst cur) ->
-  (forall x, In x rest -> snd x <> 0 -> fst x <= fst cur) ->
-  forall cur' rest' cnt', inner cur passed rest cnt = (cur', rest', cnt') ->
-    good cur' /\ Forall ok rest' /\ length rest' = (length passed + length rest)%nat /\
-    (forall ip, (inr ip cur' \/ Cov rest' ip) <-> (inr ip cur \/ Cov passed ip \/ Cov rest ip)) /\
-    (forall y, In y rest' -> snd y <> 0 -> snd y < fst cur') /\
-    StronglySorted desc (lv rest') /\
-    cnt' = cnt + nlive passed + nlive rest - nlive rest'.
+(* search over a separated array is exact *)
+Lemma search_sep : forall l ip, StronglySorted sepR l -> Forall wfr l ->
+  (search l ip = true <-> Cov l ip).
 Proof.
-  induction rest as [|x rest IH]; intros cur passed cnt Hcur Hp Hr Hs Hsep Hle cur' rest' cnt' E.
-  - cbn [inner] in E. inversion E; subst. rewrite app_nil_r in Hs.
-    split; [exact Hcur|]. split; [exact Hp|]. split; [simpl; lia|].
-    split; [intros ip; rewrite Cov_nil; tauto|]. split; [exact Hsep|]. split; [exact Hs|]. simpl; lia.
-  - inversion Hr as [|? ? Hx Hr']; subst.
-    (* the two "not merged" branches share this continuation *)
-    assert (Hskip : (snd x <> 0 -> snd x < fst cur) ->
-                    inner cur (passed ++ [x]) rest cnt = (cur', rest', cnt') ->
-      good cur' /\ Forall ok rest' /\ length rest' = (length passed + length (x :: rest))%nat /\
-      (forall ip, (inr ip cur' \/ Cov rest' ip) <-> (inr ip cur \/ Cov passed ip \/ Cov (x :: rest) ip)) /\
-      (forall y, In y rest' -> snd y <> 0 -> snd y < fst cur') /\
-      StronglySorted desc (lv rest') /\
-      cnt' = cnt + nlive passed + nlive (x :: rest) - nlive rest').
-    { intros Hxs E'.
-      eapply IH in E'; eauto.
-      - destruct E' as (G1 & G2 & G3 & G4 & G5 & G6 & G7).
-        split; [exact G1|]. split; [exact G2|].
-        split; [rewrite G3, app_length; simpl; lia|].
-        split; [intros ip; rewrite G4, Cov_app, !Cov_cons, Cov_nil; tauto|].
-        split; [exact G5|]. split; [exact G6|].
-        rewrite G7, nlive_app. cbn [nlive]. lia.
-      - apply Forall_app. split; [exact Hp | constructor; [exact Hx | constructor]].
-      - rewrite <- app_assoc. exact Hs.
-      - intros p Hin. apply in_app_iff in Hin. destruct Hin as [Hin | [<- | []]]; [apply Hsep; exact Hin | exact Hxs].
-      - intros y Hy. apply Hle. right. exact Hy. }
-    cbn [inner] in E.
-    destruct Hx as [-> | Hgx].
-    + (* a tombstone is skipped *)
-      cbn [tomb snd fst] in E. rewrite Z.eqb_refl in E. cbn [orb] in E.
-      apply Hskip; [simpl; lia | exact E].
-    + pose proof (good_live _ Hgx) as Hlx.
-      assert (E0 : (snd x =? 0) = false) by lia. rewrite E0 in E.
-      assert (E4 : (snd cur =? Z4) = false) by (unfold good in Hcur; lia). rewrite E4 in E. cbn [orb] in E.
-      destruct (fst cur <=? snd x) eqn:Ec.
-      * (* merge: items[i] absorbs items[j]; everything in between dies *)
-        rewrite (kill_between_spec _ Hp) in E. rewrite max_if in E.
-        set (c2 := (fst x, Z.max (snd cur) (snd x))) in *.
-        assert (Hfx : fst x <= fst cur) by (apply Hle; [left; reflexivity | exact Hlx]).
-        assert (Hgc : good c2). { unfold good in Hcur, Hgx |- *. unfold c2. cbn [fst snd]. clear - Hcur Hgx. lia. }
-        assert (Hsx : StronglySorted desc (x :: lv rest)).
-        { rewrite lv_app in Hs. apply SS_app_r in Hs. rewrite (lv_cons_live _ _ Hlx) in Hs. exact Hs. }
-        eapply IH in E; eauto.
-        -- destruct E as (G1 & G2 & G3 & G4 & G5 & G6 & G7).
-           assert (Hcov : forall ip, inr ip c2 <-> (inr ip cur \/ Cov passed ip \/ (snd x <> 0 /\ inr ip x))).
-           { intros ip. split.
-             - unfold inr, c2, good in *. cbn [fst snd]. intros H.
-               destruct (Z_le_gt_dec (fst cur) ip), (Z_le_gt_dec ip (snd cur)); [left; lia | right; right; lia ..].
-             - intros [H | [(p & Hin & Hl & Hi) | [_ H]]].
-               + unfold inr, c2, good in *. cbn [fst snd]. lia.
-               + pose proof (Hsep p Hin Hl) as H1.
-                 assert (Hd : desc p x).
-                 { rewrite lv_app, (lv_cons_live _ _ Hlx) in Hs.
-                   pose proof (SS_app_Forall _ _ _ p Hs) as HF.
-                   assert (Hin' : In p (lv passed)) by (apply In_lv; tauto).
-                   specialize (HF Hin'). inversion HF; assumption. }
-                 unfold inr, c2, good, desc in *. cbn [fst snd]. lia.
-               + unfold inr, c2, good in *. cbn [fst snd]. lia. }
-           split; [exact G1|]. split; [exact G2|].
-           split; [rewrite G3, app_length; unfold tombs; rewrite map_length; simpl; lia|].
-           split.
-           { intros ip. rewrite G4, Cov_app, Cov_cons, Cov_tombs, Cov_nil, Cov_cons. rewrite Hcov.
-             cbn [tomb snd]. intuition lia. }
-           split; [exact G5|]. split; [exact G6|].
-           rewrite G7, nlive_app, nlive_tombs. cbn [nlive tomb snd]. rewrite E0, Z.eqb_refl. lia.
-        -- apply Forall_app. split; [apply Forall_ok_tombs | constructor; [apply tomb_ok | constructor]].
-        -- rewrite !lv_app, lv_tombs. simpl. inversion Hsx; assumption.
-        -- intros p Hin Hl. exfalso. apply in_app_iff in Hin. destruct Hin as [Hin | [<- | []]].
-           ++ unfold tombs in Hin. apply in_map_iff in Hin. destruct Hin as (_ & <- & _). simpl in Hl. lia.
-           ++ simpl in Hl. lia.
-        -- intros y Hy Hl. inversion Hsx as [|? ? _ HF]; subst. rewrite Forall_forall in HF.
-           assert (Hy' : In y (lv rest)) by (apply In_lv; tauto). specialize (HF y Hy'). unfold desc in HF.
-           unfold c2. simpl. exact HF.
-      * apply Hskip; [lia | exact E].
-Qed.
-
-(* ---- the outer loop ---- *)
-Lemma outer_spec : forall fuel l cnt, (length l <= fuel)%nat -> Forall ok l -> StronglySorted desc (lv l) ->
-  forall l' cnt', outer fuel l cnt = (l', cnt') ->
-    Forall ok l' /\ length l' = length l /\ (forall ip, Cov l' ip <-> Cov l ip) /\
-    StronglySorted sepR (lv l') /\ cnt' = cnt + nlive l - nlive l'.
-Proof.
-  induction fuel as [|f IH]; intros l cnt Hlen Hok Hs l' cnt' E.
-  - destruct l; [|simpl in Hlen; lia]. simpl in E. inversion E; subst.
-    split; [constructor|]. split; [reflexivity|]. split; [tauto|]. split; [constructor | lia].
-  - destruct l as [|cur rest].
-    + simpl in E. inversion E; subst.
-      split; [constructor|]. split; [reflexivity|]. split; [tauto|]. split; [constructor | lia].
-    + cbn [outer] in E. inversion Hok as [|? ? Hc Hr]; subst. simpl in Hlen.
-      destruct Hc as [-> | Hg].
-      * change (is_zero (snd tomb)) with true in E. cbn iota in E.
-        destruct (outer f rest cnt) as [r c] eqn:Eo. inversion E; subst.
-        change (lv (tomb :: rest)) with (lv rest) in Hs.
-        eapply IH in Eo; eauto; [|lia].
-        destruct Eo as (G1 & G2 & G3 & G4 & G5).
-        split; [constructor; [apply tomb_ok | exact G1]|].
-        split; [simpl; lia|].
-        split; [intros ip; rewrite !Cov_cons, G3; tauto|].
-        split; [change (lv (tomb :: r)) with (lv r); exact G4|].
-        cbn [nlive tomb snd]. rewrite Z.eqb_refl. lia.
-      * rewrite (is_zero_good _ Hg) in E.
-        destruct (inner cur [] rest 0) as [[c2 rest2] c1] eqn:Ei.
-        destruct (outer f rest2 (cnt + c1)) as [r c] eqn:Eo. inversion E; subst.
-        pose proof (good_live _ Hg) as Hl.
-        assert (Hs' : StronglySorted desc (cur :: lv rest)).
-        { rewrite (lv_cons_live _ _ Hl) in Hs. exact Hs. }
-        inversion Hs' as [|? ? Hs2 HF]; subst.
-        eapply inner_spec in Ei; eauto.
-        2:{ intros p []. }
-        2:{ intros x Hx Hlx. rewrite Forall_forall in HF. apply (HF x). apply In_lv. tauto. }
-        destruct Ei as (I1 & I2 & I3 & I4 & I5 & I6 & I7).
-        eapply IH in Eo; eauto; [|simpl in I3; lia].
-        destruct Eo as (G1 & G2 & G3 & G4 & G5).
-        pose proof (good_live _ I1) as Hl2.
-        split; [constructor; [apply good_ok; exact I1 | exact G1]|].
-        split; [simpl; simpl in I3; lia|].
-        split.
-        { intros ip. rewrite !Cov_cons, G3. specialize (I4 ip). rewrite Cov_nil in I4. tauto. }
-        split.
-        { rewrite (lv_cons_live _ _ Hl2).
-          constructor; [exact G4|]. apply Forall_forall. intros y Hy. apply In_lv in Hy. destruct Hy as [Hy Hly].
-          rewrite Forall_forall in G1. pose proof (ok_live_good _ (G1 y Hy) Hly) as Hgy.
-          assert (Hc : Cov r (snd y)) by (exists y; unfold inr, good in *; repeat split; auto; lia).
-          apply G3 in Hc. destruct Hc as (x & Hx & Hlx & Hix). pose proof (I5 x Hx Hlx) as H5.
-          unfold sepR, inr in *. lia. }
-        cbn [nlive]. destruct (snd cur =? 0) eqn:E0; [lia|]. destruct (snd c2 =? 0) eqn:E1; [lia|].
-        simpl in I7. lia.
-Qed.
-
-(* ---- the second sort and the reslice ---- *)
-Lemma firstn_lv_sorted l : StronglySorted desc l -> Forall ok l -> firstn (length (lv l)) l = lv l.
-Proof.
-  induction 1 as [|a l HS IH HF]; intros Hok; [reflexivity|].
-  inversion Hok as [|? ? Ha Hl]; subst.
-  destruct (Z.eq_dec (snd a) 0) as [E0 | E0].
-  - (* a is a tombstone: everything after it starts at 0, hence is a tombstone too *)
-    rewrite (lv_cons_dead _ _ E0).
-    assert (Hn : lv l = []).
-    { destruct (lv l) as [|y t] eqn:Ey; [reflexivity|]. exfalso.
-      assert (Hy : In y (lv l)) by (rewrite Ey; left; reflexivity). apply In_lv in Hy. destruct Hy as [Hy Hly].
-      rewrite Forall_forall in HF, Hl. pose proof (ok_live_good _ (Hl y Hy) Hly) as Hg.
-      pose proof (HF y Hy) as Hd. destruct Ha as [-> | Hga]; [|pose proof (good_live _ Hga); lia].
-      unfold desc, good in *. simpl in Hd. lia. }
-    rewrite Hn. reflexivity.
-  - rewrite (lv_cons_live _ _ E0). cbn [length firstn]. f_equal. apply IH. exact Hl.
-Qed.
-
-Lemma Permutation_lv a b : Permutation a b -> Permutation (lv a) (lv b).
-Proof.
-  induction 1 as [| x a b _ IH | x y a | a b c _ IH1 _ IH2]; cbn [lv filter].
-  - constructor.
-  - destruct (liveb x); [constructor|]; exact IH.
-  - destruct (liveb x), (liveb y); try apply Permutation_refl. apply perm_swap.
-  - eapply perm_trans; eauto.
-Qed.
-
-(* search over any list that is sorted by start, duplicate-free and pairwise disjoint is exact *)
-Definition disj (a b : rng) : Prop := snd b < fst a \/ snd a < fst b.
-Lemma search_exact_list : forall l ip,
-  StronglySorted desc l -> NoDup l -> Forall good l ->
-  (forall a b, In a l -> In b l -> a = b \/ disj a b) ->
-  (search l ip = true <-> exists r, In r l /\ inr ip r).
-Proof.
-  induction l as [|[s e] l IH]; intros ip HS HN HG HD.
-  - simpl. split; [discriminate | intros (r & [] & _)].
-  - inversion HS as [|? ? HS' HF]; subst. inversion HN as [|? ? Hni HN']; subst.
-    inversion HG as [|? ? Hg HG']; subst. cbn [search].
+  induction l as [|[s e] l IH]; intros ip HS HW.
+  - simpl. rewrite Cov_nil. split; [discriminate | tauto].
+  - inversion HS as [|? ? HS' HF]; subst. inversion HW as [|? ? Hw HW']; subst. cbn [search]. rewrite Cov_cons.
     destruct (s <=? ip) eqn:Es.
-    + split.
-      * intros H. exists (s, e). split; [left; reflexivity | unfold inr; simpl; lia].
-      * intros (r & [<- | Hin] & Hi); [unfold inr in Hi; simpl in Hi; lia|].
-        exfalso. destruct (HD (s, e) r (or_introl eq_refl) (or_intror Hin)) as [<- | Hd]; [tauto|].
-        rewrite Forall_forall in HF. pose proof (HF r Hin) as Hds.
-        unfold disj, desc, inr, good in *. simpl in *. lia.
-    + rewrite IH; auto.
-      * split; intros (r & Hin & Hi); [exists r; split; [right|]; assumption|].
-        destruct Hin as [<- | Hin]; [unfold inr in Hi; simpl in Hi; lia | exists r; tauto].
-      * intros a b Ha Hb. apply HD; right; assumption.
+    + split; [intros H; left; unfold inr; simpl; lia|].
+      intros [Hi | (r & Hin & Hi)]; [unfold inr in Hi; simpl in Hi; lia|].
+      exfalso. rewrite Forall_forall in HF. specialize (HF r Hin). unfold sepR, inr in *. simpl in *. lia.
+    + rewrite (IH ip HS' HW'). split; [tauto|]. intros [Hi | H]; [unfold inr in Hi; simpl in Hi; lia | exact H].
 Qed.
 
-Lemma sep_NoDup l : Forall good l -> StronglySorted sepR l -> NoDup l.
+Lemma sep_desc l : StronglySorted sepR l -> Forall wfr l -> StronglySorted desc l.
 Proof.
-  induction 2 as [|a l HS IH HF]; [constructor|]. inversion H; subst.
-  constructor; [|auto]. intros Hin. rewrite Forall_forall in HF. specialize (HF a Hin).
-  unfold sepR, good in *. lia.
-Qed.
-Lemma sep_disj l : StronglySorted sepR l -> forall a b, In a l -> In b l -> a = b \/ disj a b.
-Proof.
-  induction 1 as [|x l HS IH HF]; intros a b Ha Hb; [destruct Ha|].
-  rewrite Forall_forall in HF. destruct Ha as [<- | Ha], Hb as [<- | Hb]; auto.
-  - right. left. apply HF. exact Hb.
-  - right. right. apply HF. exact Ha.
-Qed.
-
-Lemma Forall_good_live_eq l : Forall good l -> lv l = l.
-Proof.
-  induction 1 as [|r l Hg _ IH]; [reflexivity|]. cbn [lv filter]. unfold liveb at 1.
-  pose proof (good_live _ Hg). destruct (snd r =? 0) eqn:E; [lia|]. cbn [negb]. fold (lv l). rewrite IH. reflexivity.
-Qed.
-
-Lemma merge_then_sort_exact : forall (s2 : list rng -> list rng) l1 ip,
-  valid_sorter s2 -> Forall good l1 -> StronglySorted desc l1 ->
-  let '(m, cnt) := merge_items l1 in
-  (search (firstn (Z.to_nat (Z.of_nat (length l1) - cnt)) (s2 m)) ip = true <-> Cov l1 ip)
-  /\ StronglySorted desc (firstn (Z.to_nat (Z.of_nat (length l1) - cnt)) (s2 m)).
-Proof.
-  intros s2 l1 ip Hv Hg Hs. unfold merge_items.
-  destruct (outer (length l1) l1 0) as [m cnt] eqn:Eo.
-  assert (Hok : Forall ok l1) by (eapply Forall_impl; [|exact Hg]; intros; apply good_ok; assumption).
-  pose proof (Forall_good_live_eq _ Hg) as Hlv.
-  eapply outer_spec in Eo; eauto; [|rewrite Hlv; exact Hs].
-  destruct Eo as (G1 & G2 & G3 & G4 & G5).
-  destruct (Hv m) as [HP HS2].
-  assert (Hn : Z.to_nat (Z.of_nat (length l1) - cnt) = length (lv (s2 m))).
-  { rewrite G5. rewrite (nlive_length_lv l1), Hlv, (nlive_length_lv m).
-    rewrite (Permutation_length (Permutation_lv _ _ HP)). lia. }
-  rewrite Hn.
-  assert (Hok2 : Forall ok (s2 m)).
-  { rewrite Forall_forall in *. intros x Hx. apply G1. eapply Permutation_in; eauto. }
-  rewrite (firstn_lv_sorted _ HS2 Hok2).
-  assert (HPl : Permutation (lv (s2 m)) (lv m)) by (apply Permutation_lv; exact HP).
-  assert (Hgm : Forall good (lv m)).
-  { rewrite Forall_forall in *. intros x Hx. apply In_lv in Hx. apply ok_live_good; [apply G1|]; tauto. }
-  assert (Hg2 : Forall good (lv (s2 m))).
-  { rewrite Forall_forall in *. intros x Hx. apply Hgm. eapply Permutation_in; eauto. }
-  split; [|apply SS_filter; exact HS2].
-  rewrite search_exact_list.
-  - rewrite <- G3. split.
-    + intros (r & Hin & Hi). apply In_lv in Hin. destruct Hin as [Hin Hl].
-      exists r. split; [eapply Permutation_in; eauto | tauto].
-    + intros (r & Hin & Hl & Hi). exists r. split; [|exact Hi]. apply In_lv. split; [|exact Hl].
-      eapply Permutation_in; [apply Permutation_sym; exact HP | exact Hin].
-  - apply SS_filter. exact HS2.
-  - eapply Permutation_NoDup; [apply Permutation_sym; exact HPl | apply sep_NoDup; assumption].
-  - exact Hg2.
-  - intros a b Ha Hb. apply (sep_disj _ G4); eapply Permutation_in; eauto.
-Qed.
-
-(* guard, as a Prop over the loaded items *)
-Definition goodb (r : rng) : bool := (0 <? fst r) && (fst r <=? snd r) && negb (snd r =? Z4).
-Lemma goodb_good r : goodb r = true <-> good r.
-Proof. unfold goodb, good. lia. Qed.
-
-Lemma Cov_good_existsb l ip : Forall good l -> (Cov l ip <-> existsb (in_rng ip) l = true).
-Proof.
-  intros Hg. rewrite existsb_exists. rewrite Forall_forall in Hg. split.
-  - intros (r & Hin & _ & Hi). exists r. split; [exact Hin|]. unfold in_rng, inr in *. lia.
-  - intros (r & Hin & Hi). exists r. repeat split; auto; [apply good_live; auto | unfold in_rng in Hi; lia | unfold in_rng in Hi; lia].
+  induction 1 as [|a l HS IH HF]; intros HW; [constructor|]. inversion HW as [|? ? Ha HW']; subst.
+  constructor; [apply IH; exact HW'|]. rewrite Forall_forall in *. intros b Hb.
+  specialize (HF b Hb). specialize (HW' b Hb). unfold sepR, desc, wfr in *. lia.
 Qed.
 
 Lemma bool_eq_iff (a b : bool) : (a = true <-> b = true) -> a = b.
 Proof. destruct a, b; intuition congruence. Qed.
-
-Theorem search_exact_good : forall s1 s2 items ip,
-  valid_sorter s1 -> valid_sorter s2 -> Forall good items ->
-  search (build2 s1 s2 items) ip = existsb (in_rng ip) items.
+Lemma wf_rng_wfr items : forallb wf_rng items = true -> Forall wfr items.
+Proof. rewrite forallb_forall. intros H. apply Forall_forall. intros r Hr. specialize (H r Hr). unfold wf_rng, wfr in *. lia. Qed.
+Lemma Cov_existsb l ip : Cov l ip <-> existsb (in_rng ip) l = true.
 Proof.
-  intros s1 s2 items ip H1 H2 Hg. destruct (H1 items) as [HP HS]. unfold build2.
-  assert (Hg1 : Forall good (s1 items)).
-  { rewrite Forall_forall in *. intros x Hx. apply Hg. eapply Permutation_in; eauto. }
-  pose proof (merge_then_sort_exact s2 (s1 items) ip H2 Hg1 HS) as HM.
-  destruct (merge_items (s1 items)) as [m cnt]. rewrite (Permutation_length HP) in HM.
-  destruct HM as [HM _]. apply bool_eq_iff. rewrite HM. rewrite <- (Cov_good_existsb _ _ Hg).
-  split; apply Cov_perm; [exact HP | apply Permutation_sym; exact HP].
+  rewrite existsb_exists. unfold Cov. split; intros (r & Hin & Hi); exists r; split; auto; unfold in_rng, inr in *; lia.
 Qed.
 
-Lemma merge_items_single x : merge_items [x] = ([x], 0).
-Proof. unfold merge_items. cbn [length outer]. destruct (is_zero (snd x)); reflexivity. Qed.
+Section Sorter.
+  Variable sorter : list rng -> list rng.
+  Hypothesis Hsorter : valid_sorter sorter.
 
-(* zero or one loaded range: nothing to merge, whatever its bounds *)
-Lemma search_exact_small : forall s1 s2 items ip,
-  valid_sorter s1 -> valid_sorter s2 -> (length items <= 1)%nat ->
-  search (build2 s1 s2 items) ip = existsb (in_rng ip) items.
-Proof.
-  intros s1 s2 items ip H1 H2 Hl. destruct (H1 items) as [HP _]. unfold build2.
-  destruct items as [|x [|y t]]; [| |simpl in Hl; lia].
-  - apply Permutation_sym, Permutation_nil in HP. rewrite HP. destruct (H2 []) as [HP2 _].
-    apply Permutation_sym, Permutation_nil in HP2. cbn. try rewrite HP2. reflexivity.
-  - apply Permutation_sym, Permutation_length_1_inv in HP. rewrite HP. rewrite merge_items_single.
-    destruct (H2 [x]) as [HP2 _]. apply Permutation_sym, Permutation_length_1_inv in HP2. rewrite HP2.
-    change (Z.to_nat (Z.of_nat (length [x]) - 0)) with 1%nat. destruct x as [s e].
-    cbn [firstn search existsb]. unfold in_rng. cbn [fst snd].
-    destruct (s <=? ip); cbn [andb orb]; try rewrite orb_false_r; reflexivity.
-Qed.
+  Lemma build_facts items : Forall wfr items ->
+    StronglySorted sepR (build sorter items) /\ Forall wfr (build sorter items) /\
+    (forall ip, Cov (build sorter items) ip <-> Cov items ip).
+  Proof.
+    intros Hw. destruct (Hsorter items) as [HP HS].
+    assert (Hw1 : Forall wfr (sorter items)).
+    { rewrite Forall_forall in *. intros x Hx. apply Hw. eapply Permutation_in; eauto. }
+    destruct (merge_stack_spec _ HS Hw1) as (G1 & G2 & G3 & G4).
+    rewrite (build_is_stack sorter items HP G4).
+    split; [apply (SS_rev above); exact G1|].
+    split; [apply Forall_rev; exact G2|].
+    intros ip. rewrite Cov_rev, G3. split; apply Cov_perm; [exact HP | apply Permutation_sym; exact HP].
+  Qed.
 
-Lemma guard_cases items :
-  forallb wf_rng items = true -> no_zero_sentinel items = true ->
-  (length items <= 1)%nat \/ Forall good items.
-Proof.
-  unfold no_zero_sentinel. intros Hwf Hg. apply orb_true_iff in Hg. destruct Hg as [Hg | Hg].
-  - left. apply Nat.leb_le. exact Hg.
-  - right. apply andb_true_iff in Hg. destruct Hg as [Ha Hb]. unfold no_v6zero_start, no_v4zero_end in *.
-    rewrite forallb_forall in *. apply Forall_forall. intros r Hin.
-    specialize (Hwf r Hin). specialize (Ha r Hin). specialize (Hb r Hin). unfold wf_rng, good in *. lia.
-Qed.
+  Theorem search_exact_pairs items ip : forallb wf_rng items = true ->
+    search (build sorter items) ip = existsb (in_rng ip) items.
+  Proof.
+    intros Hwf. destruct (build_facts items (wf_rng_wfr _ Hwf)) as (G1 & G2 & G3).
+    apply bool_eq_iff. rewrite (search_sep _ ip G1 G2), G3. apply Cov_existsb.
+  Qed.
 
-(* the headline: exact membership for every valid pair of sorters under the guard *)
-Theorem search_exact : forall s1 s2 items singles ip,
-  valid_sorter s1 -> valid_sorter s2 ->
-  forallb wf_rng items = true -> no_zero_sentinel items = true ->
-  table_search singles (build2 s1 s2 items) ip = spec singles items ip.
-Proof.
-  intros s1 s2 items singles ip H1 H2 Hwf Hg. unfold table_search, spec. f_equal.
-  destruct (guard_cases _ Hwf Hg) as [Hl | Hgd].
-  - apply search_exact_small; assumption.
-  - apply search_exact_good; assumption.
-Qed.
+  (* the headline: exact membership, no guard *)
+  Theorem search_exact items singles ip : forallb wf_rng items = true ->
+    table_search singles (build sorter items) ip = spec singles items ip.
+  Proof. intros Hwf. unfold table_search, spec. f_equal. apply search_exact_pairs. exact Hwf. Qed.
 
-(* the array handed to sort.Search is sorted, so "first index with start <= ip" is what binary search returns *)
-Theorem final_sorted : forall s1 s2 items,
-  valid_sorter s1 -> valid_sorter s2 -> Forall good items -> StronglySorted desc (build2 s1 s2 items).
-Proof.
-  intros s1 s2 items H1 H2 Hg. destruct (H1 items) as [HP HS]. unfold build2.
-  assert (Hg1 : Forall good (s1 items)).
-  { rewrite Forall_forall in *. intros x Hx. apply Hg. eapply Permutation_in; eauto. }
-  pose proof (merge_then_sort_exact s2 (s1 items) 0 H2 Hg1 HS) as HM.
-  destruct (merge_items (s1 items)) as [m cnt]. rewrite (Permutation_length HP) in HM. tauto.
-Qed.
+  (* the array handed to sort.Search is sorted: "first index with start <= ip" is what binary search returns *)
+  Theorem final_sorted items : forallb wf_rng items = true -> StronglySorted desc (build sorter items).
+  Proof.
+    intros Hwf. destruct (build_facts items (wf_rng_wfr _ Hwf)) as (G1 & G2 & _). apply sep_desc; assumption.
+  Qed.
+
+  (* and its entries are pairwise disjoint, non-touching ranges *)
+  Theorem final_separated items : forallb wf_rng items = true -> StronglySorted sepR (build sorter items).
+  Proof. intros Hwf. destruct (build_facts items (wf_rng_wfr _ Hwf)) as (G1 & _). exact G1. Qed.
+End Sorter.
 
 (* ---- Go's insertion sort is a valid sorter ---- *)
 Definition asc (a b : rng) : Prop := fst a <= fst b.
@@ -461,98 +214,85 @@ Proof.
   eapply perm_trans; [exact HP|]. eapply perm_trans; [apply Permutation_app_head; apply insert_left_perm|].
   apply Permutation_sym. apply Permutation_middle.
 Qed.
-Lemma SS_rev_asc l : StronglySorted asc l -> StronglySorted desc (rev l).
-Proof.
-  induction 1 as [|a l HS IH HF]; simpl; [constructor|].
-  assert (G : forall m, StronglySorted desc m -> Forall (fun b => desc b a) m -> StronglySorted desc (m ++ [a])).
-  { induction 1 as [|b m HSm IHm HFm]; intros HA; simpl; [repeat constructor|].
-    inversion HA; subst. constructor; [apply IHm; assumption|].
-    apply Forall_app. split; [exact HFm | constructor; [assumption | constructor]]. }
-  apply G; [exact IH|]. rewrite Forall_forall in *. intros b Hb. apply in_rev in Hb. apply HF in Hb. exact Hb.
-Qed.
 Theorem go_insertion_sort_valid : valid_sorter go_insertion_sort.
 Proof.
   intros l. unfold go_insertion_sort.
   destruct (fold_insert_spec l [] (SSorted_nil _)) as [HP HS]. rewrite app_nil_r in HP. split.
   - eapply perm_trans; [apply Permutation_sym; apply Permutation_rev | exact HP].
-  - apply SS_rev_asc. exact HS.
+  - apply (SS_rev asc). exact HS.
 Qed.
 
-(* ---- refutation witnesses ---- *)
-Lemma refuted_v6zero :
-  exists items ip, forallb wf_rng items = true /\
-    table_search [] (build go_insertion_sort items) ip = false /\ spec [] items ip = true.
-Proof. exists [(0, 5); (0, 9)], 3. vm_compute. auto. Qed.
-Lemma refuted_v4zero :
-  exists items ip, forallb wf_rng items = true /\
-    table_search [] (build go_insertion_sort items) ip = false /\ spec [] items ip = true.
-Proof. exists [(Z4, Z4 + 5); (Z4 + 2, Z4 + 9); (Z4, Z4)], (Z4 + 1). vm_compute. auto. Qed.
+(* ---- 4-byte and 16-byte forms of an IPv4 address are the same address ---- *)
+Definition v4prefix : list Z := [0;0;0;0;0;0;0;0;0;0;255;255].
+Lemma fold_be_acc b : forall acc,
+  fold_left (fun a x => a * 256 + x) b acc = acc * 256 ^ Z.of_nat (length b) + fold_left (fun a x => a * 256 + x) b 0.
+Proof.
+  induction b as [|x b IH]; intros acc; cbn [fold_left length]; [rewrite Z.pow_0_r; lia|].
+  rewrite IH, (IH (0 * 256 + x)), Nat2Z.inj_succ, Z.pow_succ_r by lia. ring.
+Qed.
+Lemma be_app a b : be (a ++ b) = be a * 256 ^ Z.of_nat (length b) + be b.
+Proof. unfold be. rewrite fold_left_app. apply fold_be_acc. Qed.
+Theorem to16_v4_forms b : length b = 4%nat -> to16 (v4prefix ++ b) = to16 b.
+Proof.
+  intros H. unfold to16. rewrite app_length, H. cbn [length v4prefix Nat.add Nat.eqb].
+  rewrite be_app, H. f_equal.
+Qed.
 
 (* ---- the executable predicates of RunC19 ---- *)
-Definition wf_bytes (b : list Z) : Prop := Forall (fun x => 0 <= x) b.
-Definition wf_input (i : input) : Prop :=
-  Forall (fun p => wf_bytes (fst p) /\ wf_bytes (snd p)) (in_pairs i).
-
-Lemma be_nonneg b : wf_bytes b -> 0 <= be b.
-Proof.
-  unfold be. assert (G : forall acc, 0 <= acc -> wf_bytes b -> 0 <= fold_left (fun a x => a * 256 + x) b acc).
-  { induction b as [|x b IH]; intros acc Ha Hb; simpl; [exact Ha|]. inversion Hb; subst. apply IH; [lia | assumption]. }
-  apply G. lia.
-Qed.
 Lemma some_inj {A} (x y : A) : Some x = Some y -> x = y.
 Proof. intros H. injection H. auto. Qed.
-Lemma to16_nonneg b z : wf_bytes b -> to16 b = Some z -> 0 <= z.
+Lemma insert_pair_wf s e r : insert_pair s e = Some r -> wf_rng r = true.
 Proof.
-  intros Hb. unfold to16. pose proof (be_nonneg b Hb). pose proof Z4_pos.
-  destruct (length b =? 4)%nat; [intros E; apply some_inj in E; lia|].
-  destruct (length b =? 16)%nat; intros E; [apply some_inj in E; lia | discriminate].
-Qed.
-Lemma insert_pair_wf s e r : wf_bytes s -> wf_bytes e -> insert_pair s e = Some r -> wf_rng r = true.
-Proof.
-  intros Hs He. unfold insert_pair. destruct (to16 s) as [s16|] eqn:E1; [|discriminate].
-  destruct (to16 e) as [e16|] eqn:E2; [|discriminate].
-  pose proof (to16_nonneg _ _ Hs E1).
+  unfold insert_pair. destruct (to16 s) as [s16|]; [|discriminate]. destruct (to16 e) as [e16|]; [|discriminate].
   destruct (negb (Bool.eqb (is_v4 s16) (is_v4 e16))); [discriminate|].
   destruct (e16 <? s16) eqn:E3; [discriminate|]. intros E. apply some_inj in E. subst r.
   unfold wf_rng. cbn [fst snd]. lia.
 Qed.
-Lemma loaded_items_wf i : wf_input i -> forallb wf_rng (loaded_items i) = true.
+Lemma loaded_items_wf i : forallb wf_rng (loaded_items i) = true.
 Proof.
-  unfold wf_input, loaded_items. induction 1 as [|p l [Hs He] _ IH]; [reflexivity|]. cbn [map keep_some].
+  unfold loaded_items. induction (in_pairs i) as [|p l IH]; [reflexivity|]. cbn [map keep_some].
   destruct (insert_pair (fst p) (snd p)) as [r|] eqn:E; cbn [keep_some]; [|exact IH].
-  cbn [forallb]. rewrite (insert_pair_wf _ _ _ Hs He E). exact IH.
-Qed.
-Lemma kf_items_guard its : kf_items its = 0 -> no_zero_sentinel its = true.
-Proof.
-  unfold kf_items, no_zero_sentinel. destruct (length its <=? 1)%nat; [reflexivity|].
-  destruct (no_v6zero_start its); cbn; [|discriminate]. destruct (no_v4zero_end its); cbn; [reflexivity|discriminate].
+  cbn [forallb]. rewrite (insert_pair_wf _ _ _ E). exact IH.
 Qed.
 
-(* the model satisfies the executable property on every well-formed input outside the finding classes *)
-Theorem prop_C19_of_model : forall v i,
-  dec_input v = Some i -> wf_input i -> kf_C19 v = 0 -> prop_C19 v (run_C19 v) = true.
+(* executable well-formedness of a wire input: it decodes *)
+Definition wf_C19 (v : val) : bool := match dec_input v with Some _ => true | None => false end.
+
+(* the model satisfies the executable property on every well-formed input *)
+Theorem prop_C19_of_model : forall v, wf_C19 v = true -> kf_C19 v = 0 -> prop_C19 v (run_C19 v) = true.
 Proof.
-  intros v i Hd Hwf Hk. unfold prop_C19, run_C19, kf_C19 in *. rewrite Hd in *.
-  pose proof (loaded_items_wf _ Hwf) as Hw. pose proof (kf_items_guard _ Hk) as Hg.
+  intros v Hwf _. unfold wf_C19, prop_C19, run_C19 in *. destruct (dec_input v) as [i|]; [|discriminate].
+  pose proof (loaded_items_wf i) as Hw.
   destruct (merge_items (go_insertion_sort (loaded_items i))) as [m cnt] eqn:Em.
-  assert (Hf : final_of (length (loaded_items i)) cnt (go_insertion_sort m)
-               = build2 go_insertion_sort go_insertion_sort (loaded_items i)).
-  { unfold build2, final_of. rewrite Em. reflexivity. }
+  assert (Hf : final_of (length (loaded_items i)) cnt m = build go_insertion_sort (loaded_items i)).
+  { unfold build, final_of. rewrite Em. reflexivity. }
   rewrite Hf.
-  assert (Hm : map (fun q => vbool (probe_result (loaded_singles i)
-                      (build2 go_insertion_sort go_insertion_sort (loaded_items i)) q)) (in_probes i)
-             = map (fun q => vbool (spec_result (loaded_singles i) (loaded_items i) q)) (in_probes i)).
+  assert (Hm : map (fun q => vbool (probe_result (if in_noupd i then [] else loaded_singles i)
+                      (if in_noupd i then [] else build go_insertion_sort (loaded_items i)) q)) (in_probes i)
+             = map (fun q => vbool (spec_result (if in_noupd i then [] else loaded_singles i)
+                      (if in_noupd i then [] else loaded_items i) q)) (in_probes i)).
   { apply map_ext. intros q. unfold probe_result, spec_result. destruct (to16 q); [|reflexivity].
-    rewrite (search_exact _ _ _ _ _ go_insertion_sort_valid go_insertion_sort_valid Hw Hg). reflexivity. }
+    destruct (in_noupd i); [reflexivity|].
+    rewrite (search_exact _ go_insertion_sort_valid _ _ _ Hw). reflexivity. }
   rewrite Hm. apply val_eqb_refl.
 Qed.
 
+(* ---- non-vacuity ---- *)
 Lemma C19_nonvacuous_lemma :
   let a := Z4 + 167772160 in
   let items := [(a + 10, a + 20); (a + 15, a + 30); (a + 12, a + 13); (a + 30, a + 31); (a + 33, a + 40);
-                (a + 10, a + 20); (5, 9)] in
-  forallb wf_rng items = true /\ no_zero_sentinel items = true /\
-  build go_insertion_sort items = [(a + 33, a + 40); (a + 10, a + 31); (5, 9)] /\
-  map (fun ip => table_search [7] (build go_insertion_sort items) ip) [a + 9; a + 10; a + 31; a + 32; a + 33; a + 41; 4; 5; 9; 10; 7]
-  = [false; true; true; false; true; false; false; true; true; false; true].
+                (a + 10, a + 20); (5, 9); (0, 3); (0, 0); (Z4, Z4); (Z4, Z4 + 2); (1, Z4 + 1)] in
+  forallb wf_rng items = true /\
+  build go_insertion_sort items = [(a + 33, a + 40); (a + 10, a + 31); (0, Z4 + 2)] /\
+  map (fun ip => table_search [a + 50] (build go_insertion_sort items) ip)
+      [a + 9; a + 10; a + 31; a + 32; a + 33; a + 41; 0; 4; Z4 + 2; Z4 + 3; a + 50]
+  = [false; true; true; false; true; false; true; true; true; false; true].
 Proof. vm_compute. auto. Qed.
+Lemma C19_former_witnesses_lemma :
+  table_search [] (build go_insertion_sort [(0, 5); (0, 9)]) 3 = true /\
+  table_search [] (build go_insertion_sort [(Z4, Z4 + 5); (Z4 + 2, Z4 + 9); (Z4, Z4)]) (Z4 + 1) = true.
+Proof. vm_compute. auto. Qed.
+Lemma C19_wf_example :
+  wf_C19 (VL [VL [VL [VB [0;0;0;0]; VB [0;0;0;5]]; VL [VB [0;0;0;2]; VB [0;0;0;9]]; VL [VB [0;0;0;0]; VB [0;0;0;0]]];
+              VL []; VL [VB [0;0;0;1]; VB [0;0;0;0]; VB [0;0;0;9]; VB [0;0;0;10]]; VZ 0; VZ 0]) = true.
+Proof. reflexivity. Qed.
